@@ -3,18 +3,18 @@ module holding the property's theorems, and the wording that goes into the evide
 
 # (family, quick_n, thorough_n) ; grids ignore n except for their sampled tails
 PROPS = {
-    "C01": dict(fams=[("s1", 1500, 60000), ("sm", 800, 30000), ("cs", 900, 30000), ("he", 500, 20000)],
+    "C01": dict(fams=[("encgrid", 0, 0), ("s1", 1500, 60000), ("sm", 800, 30000), ("cs", 900, 30000), ("he", 500, 20000)],
                 real=[("chain", 140, 6000)]),
-    "C02": dict(fams=[("tbsgrid", 0, 0), ("v1", 2000, 100000), ("vm", 1000, 50000), ("s1", 800, 40000), ("sm", 500, 20000)]),
+    "C02": dict(fams=[("tbsgrid", 0, 0), ("encgrid", 0, 0), ("v1", 2000, 100000), ("vm", 1000, 50000), ("s1", 800, 40000), ("sm", 500, 20000)]),
     "C03": dict(fams=[("tbsgrid", 0, 0), ("v1", 2500, 100000), ("vm", 1000, 50000), ("cs", 600, 30000), ("ecgrid", 0, 0)],
                 real=[("tamper", 200, 8000)]),
     "C04": dict(fams=[("alggrid", 0, 0), ("s1", 300, 20000), ("he", 200, 5000)]),
-    "C05": dict(fams=[("dec", 6000, 600000), ("dechdr", 2000, 100000), ("hdrgrid", 0, 0)]),
-    "C06": dict(fams=[("dec", 2500, 300000), ("use", 2500, 200000), ("keygrid", 600, 60000), ("hist", 400, 30000),
+    "C05": dict(fams=[("depthgrid", 0, 0), ("dec", 6000, 600000), ("dechdr", 2000, 100000), ("hdrgrid", 0, 0)]),
+    "C06": dict(fams=[("depthgrid", 0, 0), ("dec", 2500, 300000), ("use", 2500, 200000), ("keygrid", 600, 60000), ("hist", 400, 30000),
                       ("dechdr", 800, 50000), ("hacc", 600, 30000)]),
-    "C07": dict(fams=[("tbsgrid", 0, 0), ("v1", 3000, 200000), ("vm", 1500, 100000), ("dec", 1500, 100000), ("reenc", 500, 20000)],
+    "C07": dict(fams=[("tbsgrid", 0, 0), ("depthgrid", 0, 0), ("v1", 3000, 200000), ("vm", 1500, 100000), ("dec", 1500, 100000), ("reenc", 500, 20000)],
                 real=[("foreign", 100, 5000)]),
-    "C08": dict(fams=[("enc", 3000, 300000), ("s1", 800, 40000), ("sm", 400, 20000), ("cs", 400, 20000),
+    "C08": dict(fams=[("encgrid", 0, 0), ("depthgrid", 0, 0), ("enc", 3000, 300000), ("s1", 800, 40000), ("sm", 400, 20000), ("cs", 400, 20000),
                       ("keyrt", 200, 3000), ("he", 300, 10000)]),
     "C09": dict(fams=[("tbsgrid", 0, 0), ("reenc", 4000, 400000)]),
     "C10": dict(fams=[("tbsgrid", 0, 0), ("cs", 4000, 300000)]),
